@@ -429,7 +429,7 @@ func init() {
 	core.Register(&core.Prop{
 		ID:    "C05",
 		Level: "model_checking",
-		Rule: "(plus the staged exported API behind Create: EVERY sequence of <=8 (thorough 9) operations from {LoadFileData, ComputeParityData, Write, replace input a by a shorter / longer / its original content, delete / restore input b} on ONE Encoder object (on the owned in-memory filesystem through a constructor hook; <=5 (thorough 7) operations also through the exported constructor on a real directory); a Write is judged iff the latest load attempt succeeded and a compute followed it - then it must succeed and the files must be a conformant set for the contents loaded last; LoadFileData must fail iff an input is missing; a second search over the error-path alphabet {load, compute, write, write with its 1st / 2nd file write torn half-way, change a} (one operation shorter) requires that an interrupted Write reports the failure and that later Writes on the same object are still right; sequences are not merged by model state, since the point is state hidden in the object) (in addition, histories within one process: this Create preceded by a Create that fails at one of four stages - empty input, non-ASCII name, missing input, too many blocks - or by a successful Create of other inputs, or both, or by a Create over all-zero content with another slice size (judged inputs then low-entropy), with garbage collection off in between so that pooled / cached state survives) bounded-exhaustive configurations: full product 1-3 files x 6 sizes x slice{4,8} x blocks{1..9,17} with names in sub-directories; slice{4,8,12,64,2000} x blocks{1,2,3,7,8,15,16,17,100,101,127,128,300} x goroutines{1,2,3,5,16}; sizes around 16384; low-entropy classes; 257/300/4097/32768 slices; 32769 slices (refusal allowed). " +
+		Rule: "(plus the staged exported API behind Create: EVERY sequence of <=8 (thorough 9) operations from {LoadFileData, ComputeParityData, Write, replace input a by a shorter / longer / its original content, delete / restore input b} on ONE Encoder object (on the owned in-memory filesystem through a constructor hook; <=5 (thorough 7) operations also through the exported constructor on a real directory); a Write is judged iff the latest load attempt succeeded and a compute followed it - then it must succeed and the files must be a conformant set for the contents loaded last; LoadFileData must fail iff an input is missing; a second search over the error-path alphabet {load, compute, write, write with its 1st / 2nd file write torn half-way, change a} (one operation shorter) requires that an interrupted Write reports the failure and that later Writes on the same object are still right; sequences are not merged by model state, since the point is state hidden in the object) (in addition, histories within one process: this Create preceded by a Create that fails at one of four stages - empty input, non-ASCII name, missing input, too many blocks - or by a successful Create of other inputs, or both, or by a Create over all-zero content with another slice size (judged inputs then low-entropy), with garbage collection off in between so that pooled / cached state survives) bounded-exhaustive configurations: full product 1-3 files x 6 sizes x slice{4,8} x blocks{1..9,17} with names in sub-directories; slice{4,8,12,64,2000} x blocks{1,2,3,7,8,15,16,17,100,101,127,128,300} x goroutines{1,2,3,5,16}; sizes around 16384; low-entropy classes; 257/300/4097/32768 slices; 32769 slices (refusal allowed); the grid slice {1 KiB..256 KiB} x blocks {9,16,17,33,64,65,129,257,300,1025} up to 9 MiB of recovery data. " +
 			"Every file Create writes is parsed by the strict reference reader and compared field by field with the reference set; every recovery block is recomputed. non-trivial = >=1 recovery file written",
 		Assumptions: []string{"file id hashes the name without padding; CRC32 stored little-endian; ids ordered as little-endian 128-bit integers (as par2cmdline reads the spec)"},
 		NewCase:     func() interface{} { return &c05Case{} },
